@@ -45,6 +45,23 @@ def build_events(p, quick, rng):
                 ev.append({"ev": "len", "cell": "%016x" % cid, "a": a, "b": b, "len": len(kids), "num": core.me_pair(n)})
                 tree._handed.append(kids)
         tree._scribble()
+    # the rule that sizes uncompact's output, on lists mixing the world cell, coarse cells and cells already at the target
+    for t in range(0, 4 if quick else 6):
+        for trial in range(6):
+            members = []
+            for _ in range(rng.randrange(2, 5)):
+                a = rng.choice([-1, t, rng.randrange(-1, t + 1), max(-1, t - 1)])
+                c = {"r": a, "f": rng.randrange(p["NF"]) if a >= 0 else 0, "s": rng.randrange(p["NS"]) if a >= 1 else 0,
+                     "d": [rng.randrange(4) for _ in range(max(0, a - 1))]}
+                members.append(0 if a < 0 else cells.real_id(c))
+            want = sum(len(ser.cell_to_children(c, t)) for c in members)
+            rule = sum(cell_info.get_num_children(ser.get_resolution(c), t) for c in members)
+            try:
+                got = a5.uncompact(list(members), t)
+                n, zeros = len(got), sum(1 for x in got if x == 0 and t >= 0)
+            except Exception:
+                n, zeros = -1, 0
+            ev.append({"ev": "sizing", "cells": ["%016x" % c for c in members], "t": t, "want": want, "rule": core.me_pair(rule), "got": n, "fillers": zeros})
     # areas as IEEE-754 fields
     total = cell_info.AUTHALIC_AREA
     tb, _ = tree.fbits(total)
